@@ -17,7 +17,7 @@ RULE = (
     "the shifted and the real-temperature table of every DI target, at every row: H_hot = exact hot heat content below T on that scale, "
     "H_cold - exact cold content = one constant = Qc, spans = total duties, H_net = H_cold - H_hot >= 0 with a zero on the shifted table, "
     "both tables end in (Qh, Qc), and row bookkeeping dT_i = T_(i-1) - T_i, CP_i = exact CP sum of interval i, dH_i = CP_i dT_i = H_(i-1) - H_i "
-    "for hot, cold and net. non-trivial = some stream has dt_cont > 0 and the shifted table holds at least one row that is not a stream "
+    "for hot, cold and net. part direct: the anchored entry get_process_heat_cascade called the way a library user would (Stream / StreamCollection objects built by the harness, all_streams left to its default, given, or given in the other order; shifted, then real with the known recovery): same table oracle, plus recovery read from the table = exact Qr; non-trivial (direct) = hot and cold streams with Qr > 0. non-trivial (service) = some stream has dt_cont > 0 and the shifted table holds at least one row that is not a stream "
     "or utility temperature (projection / pocket closure); distinct by canonical JSON."
 )
 ASSUMPTIONS = [
@@ -160,6 +160,60 @@ def eval_case(case) -> Outcome:
     return out
 
 
+def eval_direct(case) -> Outcome:
+    """The anchored entry point called directly, as a library user would: get_process_heat_cascade(hot, cold[, all])."""
+    from OpenPinch.analysis.problem_table_analysis import get_heat_recovery_target_from_pt, get_process_heat_cascade
+    from OpenPinch.classes.stream import Stream
+    from OpenPinch.classes.stream_collection import StreamCollection
+
+    from ..core.sut import call_sut
+
+    out = Outcome()
+    hot, cold = StreamCollection(), StreamCollection()
+    for d in case["streams"]:
+        s = Stream(name=d["name"], t_supply=d["t_supply"], t_target=d["t_target"], heat_flow=d["heat_flow"], dt_cont=d["dt_cont"], htc=d["htc"], is_process_stream=True)
+        (hot if d["t_supply"] > d["t_target"] else cold).add(s)
+    c = C.cascade(C.rstreams(case["streams"]))
+    out.labels.add("all_streams-" + case["all_streams"])
+    out.labels.add("only-one-kind" if not (c.hot and c.cold) else "hot-and-cold")
+    if len({float(C.fr(d["dt_cont"])) for d in case["streams"]}) > 1:
+        out.labels.add("unequal-contributions")
+    kw = {}
+    if case["all_streams"] == "given":
+        kw["all_streams"] = hot + cold
+    elif case["all_streams"] == "given-reversed":
+        kw["all_streams"] = cold + hot
+    ok, pt = call_sut(get_process_heat_cascade, hot, cold, is_shifted=True, **kw)
+    if not ok:
+        out.fail("C05.sut_exception:" + pt, f"get_process_heat_cascade raised {pt}: {call_sut.last_message}")
+        return out
+    qr = float(get_heat_recovery_target_from_pt(pt))
+    ok, pt_real = call_sut(get_process_heat_cascade, hot, cold, is_shifted=False, known_heat_recovery=qr, **kw)
+    if not ok:
+        out.fail("C05.sut_exception:" + pt_real, f"get_process_heat_cascade(is_shifted=False) raised {pt_real}: {call_sut.last_message}")
+        return out
+    if abs(qr - float(c.Qr)) > P.eps_of(c):
+        out.fail("C05.direct_recovery", f"heat recovery read from the shifted table is {qr!r} but the exact value is {float(c.Qr)!r}")
+    for shifted, tbl, tag in ((True, pt, "shifted"), (False, pt_real, "real")):
+        known = set()
+        for s in c.hot + c.cold:
+            known.add(s.lo(shifted))
+            known.add(s.hi(shifted))
+        n_extra = check_table(out, c, tbl, shifted, "direct call", "direct_" + tag, known)
+        if n_extra:
+            out.labels.add(f"inserted-rows-{tag}")
+    out.nontrivial = bool(c.hot and c.cold) and c.Qr > 0
+    return out
+
+
+@st.composite
+def direct_case(draw, tier):
+    mx = 8 if tier == "quick" else 12
+    shape = draw(st.sampled_from(["mixed", "mixed", "mixed", None]))
+    ss = draw(G.streams(2 if shape else 1, mx, False, shape, 0.0, thirds=draw(st.integers(0, 4)) == 0))
+    return {"streams": ss, "all_streams": draw(st.sampled_from(["default", "default", "given", "given-reversed"]))}
+
+
 def strategy(tier):
     mx = 8 if tier == "quick" else 12
     return st.one_of(
@@ -171,5 +225,8 @@ def strategy(tier):
     )
 
 
-PARTS = [Part("service", eval_case, {"quick": 1000, "thorough": 30000}, strategy=strategy, min_nontrivial={"quick": 200, "thorough": 5000})]
-MIN_SHARE = {"service": {"unequal-contributions": 0.3, "inserted-rows-shifted": 0.2, "inserted-rows-real": 0.2}}
+PARTS = [
+    Part("service", eval_case, {"quick": 1000, "thorough": 30000}, strategy=strategy, min_nontrivial={"quick": 200, "thorough": 5000}),
+    Part("direct", eval_direct, {"quick": 1500, "thorough": 40000}, strategy=direct_case, min_nontrivial={"quick": 400, "thorough": 10000}),
+]
+MIN_SHARE = {"service": {"unequal-contributions": 0.3, "inserted-rows-shifted": 0.2, "inserted-rows-real": 0.2}, "direct": {"all_streams-default": 0.25, "all_streams-given": 0.1, "unequal-contributions": 0.3}}
